@@ -309,7 +309,8 @@ Proof. intros []. constructor; cbn [wr] in *; try assumption; try discriminate. 
 Lemma ring_forget_avail s w : RingInv s w RAvail -> RingInv s w RNone.
 Proof. intros []. constructor; cbn [rd] in *; try assumption; try discriminate. Qed.
 
-(* ================================================================== thread-level invariant, one producer *)
+(* ================================================================== thread-level invariant: the consumer and ONE producer
+   (for several producer threads this is the producer currently inside the ring, see SpscN.v) *)
 Definition wph_p (p : pth) : wph :=
   match p_pc p with PPush _ PuWrite => WRoom | PPush _ PuStoreTail => WWritten (p_rv p) | _ => WNone end.
 Definition rph_of (m : poppc) : rph := match m with PoRead => RAvail | PoStoreHead => RMoved | _ => RNone end.
@@ -370,7 +371,7 @@ Record Inv1 (R : bool) (V0 : list val) (h : sh) (c : cth) (p : pth) : Prop := {
   i_prh : p_knows_head p = true -> p_rh p = head h;
   i_crh : c_knows_head c = true -> c_rh c = head h;
   i_recv : taken_by true h = ret_vals (c_rets c) ++ (if c_holding c then [c_rp c] else []);
-  i_sent : Subseq (pushed h ++ p_pending p) V0;
+  i_sent : Subseq (p_pushed p ++ p_pending p) V0;
   (* R = the producer never uses the drop-oldest path: every slot read is the consumer's *)
   i_raw : R = true -> p_sendish p = false /\ Forall (fun x => fst x = true) (taken h) }.
 
@@ -423,12 +424,6 @@ Proof. intros H. destruct (p_inpop p) eqn:E; [|reflexivity]. apply p_inpop_sendi
 Lemma p_unlocked_notinpop p : p_locked p = false -> p_inpop p = false.
 Proof. intros H. destruct (p_inpop p) eqn:E; [|reflexivity]. apply p_inpop_locked in E. congruence. Qed.
 
-
-Lemma tail_le_V0 R V0 h c p : Inv1 R V0 h c p -> tail h <= lenZ V0.
-Proof.
-  intros [Hr _ _ _ _ _ _ _ _ Hs _]. rewrite <- (ri_pushed _ _ _ Hr).
-  apply Subseq_length in Hs. rewrite app_length in Hs. unfold lenZ. lia.
-Qed.
 
 (* ---- field frame lemmas *)
 Lemma no_same_ring h : same_ring h (notify_one h).
@@ -525,12 +520,11 @@ Ltac get_np :=
   | match goal with H : _ = true -> p_sendish ?p = false |- _ =>
       assert (p_inpop p = false) by (apply p_notsend_notinpop, H; rewrite ?orb_true_r; reflexivity) end ].
 
-Lemma cstep_inv R V0 h c p h' c' :
-  Inv1 R V0 h c p -> idxs_ok h (lenZ V0) -> cstep h c = Some (h', c') -> Inv1 R V0 h' c' p.
+Lemma cstep_inv R V0 B h c p h' c' :
+  Inv1 R V0 h c p -> tail h <= B -> idxs_ok h B -> cstep h c = Some (h', c') -> Inv1 R V0 h' c' p.
 Proof.
-  intros I Hidx Hstep.
+  intros I HtV Hidx Hstep.
   pose proof (excl_pop _ _ _ _ _ I) as Hex.
-  pose proof (tail_le_V0 _ _ _ _ _ I) as HtV.
   destruct I as [Iring Ilock Iexcl Iplock Imode Iprt Iprh Icrh Irecv Isent Iraw].
   destruct c as [prog pc rt rh rp snap cl can rets].
   unfold cstep in Hstep; cbn [c_pc c_prog c_rh c_rp c_snap c_cl c_can] in Hstep.
@@ -574,13 +568,12 @@ Ltac mkp := constructor; unf_p; cbn in *.
 Lemma c_inpop_cases c : c_inpop c = true -> c_locked c = true \/ c_raw c = true.
 Proof. unfold c_inpop, c_locked, c_raw. destruct (c_pc c); try discriminate; intros _; [right; apply orb_true_r|left; reflexivity|left; reflexivity]. Qed.
 
-Lemma pstep_inv R V0 h c p h' p' :
-  Inv1 R V0 h c p -> idxs_ok h (lenZ V0) -> pstep h p = Some (h', p') -> Inv1 R V0 h' c p'.
+Lemma pstep_inv R V0 B h c p h' p' :
+  Inv1 R V0 h c p -> tail h <= B -> idxs_ok h B -> pstep h p = Some (h', p') -> Inv1 R V0 h' c p'.
 Proof.
-  intros I Hidx Hstep.
+  intros I HtV Hidx Hstep.
   pose proof (excl_pop _ _ _ _ _ I) as Hex.
   pose proof (c_inpop_cases c) as Hcc.
-  pose proof (tail_le_V0 _ _ _ _ _ I) as HtV.
   destruct I as [Iring Ilock Iexcl Iplock Imode Iprt Iprh Icrh Irecv Isent Iraw].
   destruct p as [prog pc prt prh rv hd rets].
   unfold pstep in Hstep; cbn [p_pc p_prog p_rt p_rh p_rv p_handles p_rets] in Hstep.
@@ -678,64 +671,7 @@ Qed.
 Lemma idxs_ok_static a b n : static_eq a b -> idxs_ok b n -> idxs_ok a n.
 Proof. intros [E1 E2] H k Hk. specialize (H k Hk). unfold idx_ok, slot_idx, wrapW in *. rewrite E1, E2. exact H. Qed.
 
-Definition Inv (R : bool) (V0 : list val) (s : st) : Prop :=
-  exists p, prods s = [p] /\ Inv1 R V0 (shd s) (cons s) p /\ idxs_ok (shd s) (lenZ V0).
 
-Lemma step_inv R V0 s t s' : Inv R V0 s -> step s t = Some s' -> Inv R V0 s'.
-Proof.
-  intros (p & Hp & I & Hidx) H. unfold step in H.
-  destruct t as [|[|k]].
-  - destruct (cstep (shd s) (cons s)) as [[h c]|] eqn:E; [|discriminate]. inv_step H.
-    exists p. cbn. split; [assumption|]. split; [eapply cstep_inv; eauto|].
-    eapply idxs_ok_static; [eapply cstep_static; eauto|assumption].
-  - destruct (sstep (shd s) (stp s)) as [[h x]|] eqn:E; [|discriminate]. inv_step H.
-    exists p. cbn. split; [assumption|]. split; [eapply sstep_inv; eauto|].
-    eapply idxs_ok_static; [eapply sstep_static; eauto|assumption].
-  - rewrite Hp in H. destruct k as [|k]; cbn in H; [|destruct k; discriminate].
-    destruct (pstep (shd s) p) as [[h p']|] eqn:E; [|discriminate]. inv_step H.
-    exists p'. cbn. split; [reflexivity|]. split; [eapply pstep_inv; eauto|].
-    eapply idxs_ok_static; [eapply pstep_static; eauto|assumption].
-Qed.
-
-Lemma step'_inv R V0 s t : Inv R V0 s -> Inv R V0 (step' s t).
-Proof. intros I. unfold step'. destruct (step s t) eqn:E; [eapply step_inv; eauto|assumption]. Qed.
-
-Lemma run_inv R V0 sched : forall s, Inv R V0 s -> Inv R V0 (run s sched).
-Proof. induction sched as [|t r IH]; intros s I; cbn; [assumption|]. apply IH, step'_inv, I. Qed.
-
-(* ---- initial configurations *)
-Definition cfg_ok (capacity w : Z) (cprog : list cop) (pprog : list pop_) : Prop :=
-  1 <= capacity < w /\
-  ((capacity | w) \/ lenZ (op_vals pprog) < w) /\
-  (existsb is_opop cprog = true -> existsb is_osend pprog = false).
-
-Lemma init_inv capacity w cprog n pprog :
-  cfg_ok capacity w cprog pprog ->
-  Inv (negb (existsb is_osend pprog)) (op_vals pprog) (init capacity w cprog n [pprog]).
-Proof.
-  intros (Hc & Hw & Hm). exists (p0 pprog). cbn [init prods map shd cons].
-  split; [reflexivity|]. split.
-  - constructor; cbn.
-    + apply ring_init. assumption.
-    + reflexivity.
-    + reflexivity.
-    + reflexivity.
-    + unfold c_raw, p_sendish. cbn. rewrite !orb_false_r. assumption.
-    + discriminate.
-    + discriminate.
-    + discriminate.
-    + reflexivity.
-    + apply Subseq_refl.
-    + intros HR. apply negb_true_iff in HR. unfold p_sendish. cbn. rewrite orb_false_r. split; [assumption|constructor].
-  - intros k Hk. destruct Hw as [Hd|Hl].
-    + apply idx_ok_divide; cbn; [lia|lia|assumption].
-    + apply idx_ok_small. cbn. lia.
-Qed.
-
-Lemma reach_inv capacity w cprog n pprog sched :
-  cfg_ok capacity w cprog pprog ->
-  Inv (negb (existsb is_osend pprog)) (op_vals pprog) (run (init capacity w cprog n [pprog]) sched).
-Proof. intros H. apply run_inv, init_inv, H. Qed.
 
 Lemma filter_all_true (l : list (bool * val)) :
   Forall (fun x => fst x = true) l -> filter (fun x => Bool.eqb (fst x) true) l = l.
@@ -748,89 +684,6 @@ Proof.
   cbn in H. inversion H; subst. cbn. f_equal. eapply IH; eauto.
 Qed.
 
-(* ================================================================== theorems, one producer *)
-Section OneProducer.
-  Variables (capacity w : Z) (cprog : list cop) (nstop : nat) (pprog : list pop_) (sched : list nat).
-  Hypothesis Hcfg : cfg_ok capacity w cprog pprog.
-  Let s := run (init capacity w cprog nstop [pprog]) sched.
-
-  Lemma spsc_no_ub : ub (shd s) = None.
-  Proof. destruct (reach_inv _ _ _ nstop _ sched Hcfg) as (p & _ & [Hr _ _ _ _ _ _ _ _ _ _] & _). exact (ri_ub _ _ _ Hr). Qed.
-
-  Lemma spsc_ring_inv : exists p, prods s = [p] /\ RingInv (shd s) (wph_p p) (rph_cp (cons s) p).
-  Proof. destruct (reach_inv _ _ _ nstop _ sched Hcfg) as (p & Hp & [Hr _ _ _ _ _ _ _ _ _ _] & _). eauto. Qed.
-
-  (* everything that ever left the ring is a prefix of what entered it, in order, each once *)
-  Lemma spsc_taken_prefix : exists n, map snd (taken (shd s)) = firstn n (pushed (shd s)).
-  Proof. destruct spsc_ring_inv as (p & _ & Hr). eexists. exact (ri_taken _ _ _ Hr). Qed.
-
-  Lemma spsc_pushed_sent : Subseq (pushed (shd s)) (op_vals pprog).
-  Proof.
-    destruct (reach_inv _ _ _ nstop _ sched Hcfg) as (p & _ & [_ _ _ _ _ _ _ _ _ Hs _] & _).
-    eapply Subseq_trans; [apply Subseq_app_r|exact Hs].
-  Qed.
-
-  Lemma spsc_received_taken : Subseq (received s) (map snd (taken (shd s))).
-  Proof.
-    destruct (reach_inv _ _ _ nstop _ sched Hcfg) as (p & _ & [_ _ _ _ _ _ _ _ Hrc _ _] & _).
-    unfold received, s. apply Subseq_trans with (taken_by true (shd (run (init capacity w cprog nstop [pprog]) sched))).
-    - rewrite Hrc. apply Subseq_app_r.
-    - unfold taken_by. apply Subseq_map, Subseq_filter.
-  Qed.
-
-  Lemma spsc_received_pushed : Subseq (received s) (pushed (shd s)).
-  Proof.
-    destruct spsc_taken_prefix as [n Hn].
-    eapply Subseq_trans; [apply spsc_received_taken|]. rewrite Hn. apply Subseq_firstn.
-  Qed.
-
-  (* each received sample is a sent sample, none twice, in the producer's order *)
-  Lemma spsc_received_sent : Subseq (received s) (op_vals pprog).
-  Proof. eapply Subseq_trans; [apply spsc_received_pushed|apply spsc_pushed_sent]. Qed.
-
-  Lemma spsc_received_nodup : NoDup (op_vals pprog) -> NoDup (received s).
-  Proof. apply Subseq_NoDup, spsc_received_sent. Qed.
-
-  (* bare ring (no drop-oldest): the popped sequence is a PREFIX of the pushed sequence *)
-  Lemma spsc_received_prefix :
-    existsb is_osend pprog = false -> received s = firstn (length (received s)) (pushed (shd s)).
-  Proof.
-    intros Hraw. unfold received, s.
-    destruct (reach_inv _ _ _ nstop _ sched Hcfg) as (p & _ & [Hr _ _ _ _ _ _ _ Hrc _ Hrw] & _).
-    rewrite Hraw in Hrw. destruct (Hrw eq_refl) as [_ Hall].
-    assert (Htb : taken_by true (shd (run (init capacity w cprog nstop [pprog]) sched)) =
-                  map snd (taken (shd (run (init capacity w cprog nstop [pprog]) sched)))).
-    { unfold taken_by. f_equal. apply filter_all_true. exact Hall. }
-    rewrite Htb, (ri_taken _ _ _ Hr) in Hrc.
-    symmetry in Hrc. apply app_prefix_firstn in Hrc. exact Hrc.
-  Qed.
-
-  (* push answers Err(full) only when the ring is full at the instant it loads `head` *)
-  Lemma spsc_full_only_when_full p c :
-    prods s = [p] -> p_pc p = PPush c PuLoadHead ->
-    is_full (shd s) (p_rt p) (head (shd s)) = true ->
-    tail (shd s) - head (shd s) = cap (shd s).
-  Proof.
-    intros Hp Hpc Hf.
-    destruct (reach_inv _ _ _ nstop _ sched Hcfg) as (p' & Hp' & [Hr _ _ _ _ Hrt _ _ _ _ _] & _).
-    fold s in Hp', Hr, Hrt. rewrite Hp in Hp'. inv_step Hp'.
-    unfold wph_p, p_knows_tail in *. rewrite Hpc in *. rewrite (Hrt eq_refl) in Hf.
-    eapply ring_full_is_full; eauto.
-  Qed.
-
-  (* pop answers None only when the ring is empty at the instant it loads `tail` *)
-  Lemma spsc_none_only_when_empty m :
-    c_pc (cons s) = m -> (m = CPopRaw PoLoadTail \/ m = CRvPop PoLoadTail) ->
-    is_mt (shd s) (c_rh (cons s)) (tail (shd s)) = true ->
-    head (shd s) = tail (shd s).
-  Proof.
-    intros Hpc Hm He.
-    destruct (reach_inv _ _ _ nstop _ sched Hcfg) as (p' & Hp' & [Hr _ _ _ _ _ _ Hrh _ _ _] & _).
-    fold s in Hp', Hr, Hrh. unfold rph_cp, c_inpop, rph_c, c_knows_head in *.
-    destruct Hm; subst m; rewrite H in *; cbn in *; rewrite (Hrh eq_refl) in He;
-      eapply ring_empty_is_empty; eauto.
-  Qed.
-End OneProducer.
 
 (* ================================================================== Drop for SpscRing *)
 Record DInv (s : sh) (hh : Z) : Prop := {
@@ -896,81 +749,4 @@ Proof.
   exists s'. cbn [app] in E. repeat split; try assumption.
   rewrite Rtk, Z.add_0_r. symmetry. apply firstn_skipn.
 Qed.
-
-Section OneProducerQuiescent.
-  Variables (capacity w : Z) (cprog : list cop) (nstop : nat) (pprog : list pop_) (sched : list nat).
-  Hypothesis Hcfg : cfg_ok capacity w cprog pprog.
-  Let s := run (init capacity w cprog nstop [pprog]) sched.
-
-  Lemma quiescent_ring : quiescent s = true -> RingInv (shd s) WNone RNone /\ idxs_ok (shd s) (tail (shd s)).
-  Proof.
-    intros Hq. destruct (reach_inv _ _ _ nstop _ sched Hcfg) as (p & Hp & I & Hidx). fold s in Hp, I, Hidx.
-    pose proof (tail_le_V0 _ _ _ _ _ I) as Ht. destruct I as [Hr _ _ _ _ _ _ _ _ _ _].
-    unfold quiescent in Hq. rewrite Hp in Hq. cbn in Hq. rewrite andb_true_r in Hq.
-    apply andb_true_iff in Hq as [Hq Hpi]. apply andb_true_iff in Hq as [Hci _].
-    unfold c_idle in Hci. unfold p_idle in Hpi. unfold wph_p, rph_cp, c_inpop, rph_p in Hr.
-    destruct (c_pc (cons s)); try discriminate. destruct (p_pc p); try discriminate.
-    split; [exact Hr|]. intros k Hk. apply Hidx. lia.
-  Qed.
-
-  (* with no operation in flight: slot i holds a value  <=>  i = k mod capacity for some head <= k < tail,
-     and then it holds the k-th pushed value *)
-  Lemma spsc_slots_iff : quiescent s = true -> forall i, 0 <= i < cap (shd s) ->
-    (slots (shd s) i <> None <-> exists k, head (shd s) <= k < tail (shd s) /\ k mod cap (shd s) = i) /\
-    (forall k, head (shd s) <= k < tail (shd s) -> slots (shd s) (k mod cap (shd s)) = nthZ (pushed (shd s)) k).
-  Proof.
-    intros Hq i Hi. destruct (quiescent_ring Hq) as [[Rc Rh0 Rht Rlen Rroom Rav Rp Rtk Rf Re Ru] _].
-    cbn [rd wr] in *. unfold pushed_ext in Rf. rewrite app_nil_r in Rf. split; [split|].
-    - intros Hne. destruct (Z_le_gt_dec (tail (shd s)) (head (shd s))) as [Hle|Hgt].
-      + exfalso. apply Hne. apply Re; [assumption|]. intros k Hk. lia.
-      + (* some k in the window maps to i: k = head + ((i - head) mod cap) *)
-        set (k := head (shd s) + (i - head (shd s)) mod cap (shd s)).
-        assert (Hk0 : 0 <= (i - head (shd s)) mod cap (shd s) < cap (shd s)) by (apply Z.mod_pos_bound; lia).
-        assert (Hkm : k mod cap (shd s) = i).
-        { unfold k. rewrite Zplus_mod_idemp_r. replace (head (shd s) + (i - head (shd s))) with i by lia.
-          apply Z.mod_small. assumption. }
-        destruct (Z_lt_ge_dec k (tail (shd s))) as [Hin|Hout]; [exists k; split; [lia|assumption]|].
-        exfalso. apply Hne. apply Re; [assumption|]. intros k' Hk' E.
-        assert (k' mod cap (shd s) = k mod cap (shd s)) by congruence.
-        destruct (Z.eq_dec k' k) as [->|Nk]; [lia|].
-        assert (0 < k - k' < cap (shd s)) by lia.
-        eapply mod_neq; eauto.
-    - intros (k & Hk & E) Hn. rewrite <- E, Rf in Hn by lia.
-      destruct (nthZ_some (pushed (shd s)) k) as [v Hv]; [lia|]. congruence.
-    - intros k Hk. apply Rf. lia.
-  Qed.
-
-  (* drop balance: when the last handle goes away the ring's Drop releases exactly the values
-     that were pushed and never taken, each once, and raises no UB; nothing stays in a slot *)
-  Lemma spsc_drop_balance : quiescent s = true ->
-    exists h' d, ring_drop (shd s) = (h', d) /\ ub h' = None /\
-                 (forall i, 0 <= i < cap (shd s) -> slots h' i = None) /\
-                 pushed (shd s) = map snd (taken (shd s)) ++ d.
-  Proof.
-    intros Hq. destruct (quiescent_ring Hq) as [Hr Hi].
-    destruct (ring_drop_ok _ Hr Hi) as (h' & E & Hu & Hn & Hb). eauto 10.
-  Qed.
-End OneProducerQuiescent.
-
-(* ================================================================== sanity example *)
-(* the same configuration with the two sends issued by ONE thread is covered by the theorems above *)
-Example one_thread_same_ops_ok sched :
-  ub (shd (run (init 2 (2 ^ 64) [ORecv; ORecv; ORecv] 0 [[OSend 10; OSend 20]]) sched)) = None.
-Proof.
-  apply spsc_no_ub. split; [|split].
-  - change (2 ^ 64) with 18446744073709551616. lia.
-  - left. exists (2 ^ 63). reflexivity.
-  - cbn. discriminate.
-Qed.
-
-(* ================================================================== index arithmetic at the usize wrap *)
-(* `idx = tail % capacity` on a wrapping counter: with a capacity that does not divide the word
-   modulus the slot sequence jumps at the wrap.  Toy word of 2 bits (modulus 4), capacity 3, seven
-   pushes: the fifth push lands on a slot that is still occupied.  For the real 2^64 modulus this
-   needs 2^64 pushes; the theorems assume `(capacity | 2^64) \/ pushes < 2^64` (cfg_ok). *)
-Definition wrap_cfg : st :=
-  init 3 4 [OPop; OPop; OPop; OPop; OPop; OPop] 0 [[OPush 1; OPush 2; OPush 3; OPush 4; OPush 5; OPush 6; OPush 7]].
-Lemma wrap_nondivisible_witness :
-  ub (shd (run_ops wrap_cfg [2;2;2;0;0;2;2]%nat)) = Some UbOverwrite.
-Proof. vm_compute. reflexivity. Qed.
 
